@@ -25,7 +25,9 @@ GStartAuth    == IsEv("StartAuth") /\ StartAuth(Ev.pw)
 GStartProtect == IsEv("StartProtect") /\ StartProtect(Ev.pw, {Ev.bs[i] : i \in DOMAIN Ev.bs})
 GStartRead    == IsEv("StartRead") /\ StartRead(Ev.bs)
 GStartWrite   == IsEv("StartWrite") /\ StartWrite(Ev.b, Ev.v)
-GStartNdef    == IsEv("StartNdef") /\ StartNdef
+GStartNdef    == IsEv("StartNdef") /\ (StartNdef \/ NdefCached)
+GDropCache    == IsEv("DropCache") /\ DropCache
+GNNdefRead    == IsEv("NNdefRead") /\ NNdefRead
 GAWriteRC     == IsEv("AWriteRC") /\ AWriteRC
 GAReadId      == IsEv("AReadId") /\ AReadId
 GSReadWcnt    == IsEv("SReadWcnt") /\ SReadWcnt
@@ -46,10 +48,10 @@ GOther        == IsEv("Other") /\ ~InFlight /\ UNCHANGED vars
 GReturn       == /\ IsEv("Return") /\ pc = "idle" /\ last.op # "none"
                  /\ Ev.res = last.res /\ Ev.d = last.d
                  /\ Ev.ck = tag.ck /\ Ev.locked = tag.locked          \* the simulated tag's state ...
-                 /\ Ev.auth = rd.auth /\ (Felica => Ev.has = rd.has)  \* ... and the tag object's
+                 /\ Ev.auth = rd.auth /\ (Felica => Ev.has = rd.has) /\ Ev.cached = rd.cset  \* ... and the tag object's
                  /\ UNCHANGED vars
 
-Guarded == GStartAuth \/ GStartProtect \/ GStartRead \/ GStartWrite \/ GStartNdef \/ GAWriteRC \/ GAReadId \/ GSReadWcnt
+Guarded == GStartAuth \/ GStartProtect \/ GStartRead \/ GStartWrite \/ GStartNdef \/ GDropCache \/ GNNdefRead \/ GAWriteRC \/ GAReadId \/ GSReadWcnt
            \/ GSReadState \/ GNPwd \/ GRRead \/ GCheck \/ GFlipData \/ GFlipMac \/ GSwap \/ GPad \/ GCount \/ GReplay
            \/ GOther \/ GReturn
 
@@ -57,7 +59,7 @@ Logged == Ev.a \in {"AReadId", "SReadState", "RRead"} \/ (Ev.a = "NPwd" /\ resp'
 HistOk == hl' = IF Logged THEN Append(hl, resp') ELSE hl
 
 InvNames == <<"ResultTyped", "AuthSound", "AuthComplete", "ProtectKey", "ProtectThenAuth",
-              "MacReadFresh", "MacReadAuthentic", "MacReadComplete">>
+              "MacReadFresh", "MacReadAuthentic", "MacReadComplete", "NdefVerified">>
 InvP(n) == CASE n = "ResultTyped" -> ResultTypedP(last')
              [] n = "AuthSound" -> AuthSoundP(last')
              [] n = "AuthComplete" -> AuthCompleteP(last')
@@ -66,6 +68,7 @@ InvP(n) == CASE n = "ResultTyped" -> ResultTypedP(last')
              [] n = "MacReadFresh" -> MacReadFreshP(last')
              [] n = "MacReadAuthentic" -> MacReadAuthenticP(last', hist')
              [] n = "MacReadComplete" -> MacReadCompleteP(last')
+             [] n = "NdefVerified" -> NdefVerifiedP(last')
 \* a failure already reported for this trace (same invariant, operation and outcome) is stepped over on
 \* the next validation pass so that the rest of the execution is still checked
 Tol == {Traces[tid].tol[i] : i \in DOMAIN Traces[tid].tol}
@@ -76,7 +79,7 @@ Real == Guarded /\ HistOk /\ AllInv
 
 FailedInv == SelectSeq(InvNames, LAMBDA n : ~ENABLED (Guarded /\ HistOk /\ (InvP(n) \/ Sig(n) \in Tol)))
 Expected == IF Ev.a = "Check" THEN {o \in Outcomes : ENABLED (IsEv("Check") /\ Check(o))}
-            ELSE IF Ev.a = "Return" THEN {<<last.res, last.d, tag.ck, tag.locked, rd.auth, rd.has>>}
+            ELSE IF Ev.a = "Return" THEN {<<last.res, last.d, tag.ck, tag.locked, rd.auth, rd.has, rd.cset>>}
             ELSE {}
 Why == IF ~ENABLED Guarded THEN <<"guard", pc, Expected>>
        ELSE <<"inv", FailedInv, pc>>
